@@ -70,6 +70,9 @@ type Exec struct {
 	lazy     map[*Obj]Value
 	conns    map[*Term]*Obj
 	boxed    map[*Term]Value
+	sidx     map[*Term]bool
+	unfolded map[*Term]bool
+	recfact  map[*Term]bool
 	aliasOf  map[*Obj]*Obj
 }
 
@@ -1108,6 +1111,9 @@ func (x *Exec) goRem(a, b *Term, signed bool) *Term {
 }
 
 func (x *Exec) floatOp(o token.Token, a, b *Term) Value {
+	if o == token.QUO && a.Op == "app" && a.Name == "float.durdiv" && b.Op == "app" && b.Name == "float.lit" && b.Args[0].Op == "int" && b.Args[0].Num.Sign() > 0 {
+		return App("float.durdiv", SInt, a.Args[0], Mul(a.Args[1], b.Args[0]))
+	}
 	switch o {
 	case token.LSS, token.LEQ, token.GTR, token.GEQ:
 		return App("float."+o.String(), SBool, a, b)
@@ -1359,6 +1365,12 @@ func (x *Exec) convert(st *State, in ssa.Instruction, v Value, from, to types.Ty
 				t = BV2Int(t)
 			}
 			return App("float.of", SInt, t)
+		}
+		if t.Op == "app" && t.Name == "float.durdiv" {
+			d := t.Args[0]
+			// range of A-FLOAT: below 4096 hours the truncated float quotient is the integer quotient
+			st.Assume(And(Le(IntLit(0), d), Lt(d, IntLit(4096*3600e9))))
+			return Div(d, t.Args[1])
 		}
 		if t.Op == "app" && t.Name == "float.ceil7n8" {
 			n := t.Args[0]
